@@ -617,6 +617,35 @@ fn worker_case(s: &State, case: &Value) -> Value {
 				}
 			}))
 		}
+		"batch" => {
+			// many small calls in one round trip: each is evaluated and (boundedly) forced under its
+			// own panic guard; only the calls that do not end in a value or an error are reported
+			let mut bad = Vec::new();
+			let mut n = 0usize;
+			let mut errs = 0usize;
+			if let Some(codes) = case["codes"].as_array() {
+				for (i, c) in codes.iter().enumerate() {
+					let code = c.as_str().unwrap_or("").to_owned();
+					n += 1;
+					let r = outcome(guarded(|| {
+						let v = s.evaluate_snippet("<c04b>".to_owned(), code)?;
+						finish_val(v)
+					}));
+					let o = r["outcome"].as_str().unwrap_or("?");
+					let depth = verif_current_depth();
+					if o == "err" {
+						errs += 1;
+					}
+					if (o != "ok" && o != "err") || depth != 0 {
+						let mut r = r;
+						r["i"] = json!(i);
+						r["depth_after"] = json!(depth);
+						bad.push(r);
+					}
+				}
+			}
+			json!({"outcome":"ok","n":n,"errs":errs,"bad":bad})
+		}
 		"parse" => {
 			let code = case["code"].as_str().unwrap_or("").to_owned();
 			outcome(guarded(|| {
@@ -1001,6 +1030,148 @@ fn run_workers(opts: &Opts) {
 		}
 	}
 
+	// D2. dense pairs: every function of two or more parameters gets ALL ordered pairs of a small
+	// dense string pool in every pair of positions, and every string with the integers around its
+	// length in characters and in bytes (-1, 0, 1, len-1, len, len+1) in every other position.
+	// The calls are batched (one worker round trip per function), only the failing ones become
+	// individual cases.
+	let spool: Vec<String> = vec![
+		String::new(), "a".into(), "ab".into(), "é".into(), "éé".into(), "aé".into(), "éa".into(), "😀".into(), "a😀".into(), "e\u{301}".into(), "\u{0}".into(),
+		"x".repeat(300), "é".repeat(200),
+	];
+	let lit = |t: &str| -> String {
+		let mut o = String::from("\"");
+		for c in t.chars() {
+			match c {
+				'"' | '\\' => {
+					o.push('\\');
+					o.push(c);
+				}
+				c if (c as u32) < 0x20 => o.push_str(&format!("\\u{:04x}", c as u32)),
+				c => o.push(c),
+			}
+		}
+		o.push('"');
+		o
+	};
+	let ints_of = |t: &str| -> Vec<i64> {
+		let c = t.chars().count() as i64;
+		let b = t.len() as i64;
+		let mut v = vec![-1, 0, 1, c - 1, c, c + 1, b - 1, b, b + 1];
+		v.sort_unstable();
+		v.dedup();
+		v
+	};
+	let mut pair_calls = 0usize;
+	let mut pair_errs = 0usize;
+	let mut pair_bad = 0usize;
+	for (name, arity) in &fnames {
+		let k = *arity;
+		if k < 2 {
+			continue;
+		}
+		let mut codes: Vec<String> = Vec::new();
+		let fillers: &[&str] = if k == 2 { &["1"] } else { &["\"a\"", "1"] };
+		let call = |args: &[String]| format!("std.{}({})", name, args.join(", "));
+		// string x string
+		for i in 0..k {
+			for j in (i + 1)..k {
+				for f in fillers {
+					for a in &spool {
+						for b in &spool {
+							let mut args: Vec<String> = vec![(*f).to_owned(); k];
+							args[i] = lit(a);
+							args[j] = lit(b);
+							codes.push(call(&args));
+						}
+					}
+				}
+			}
+		}
+		// string x integer around its length
+		for i in 0..k {
+			for j in 0..k {
+				if i == j {
+					continue;
+				}
+				for f in fillers {
+					for a in &spool {
+						for n in ints_of(a) {
+							let mut args: Vec<String> = vec![(*f).to_owned(); k];
+							args[i] = lit(a);
+							args[j] = n.to_string();
+							codes.push(call(&args));
+						}
+					}
+				}
+			}
+		}
+		// string x integer x integer (substr, slice, splitLimit …)
+		if k >= 3 {
+			for i in 0..k {
+				for j in 0..k {
+					for l in (j + 1)..k {
+						if i == j || i == l {
+							continue;
+						}
+						for a in &spool {
+							let ns = ints_of(a);
+							for n1 in &ns {
+								for n2 in &ns {
+									// quick tier: the second integer only from the ends of the range
+									let c = a.chars().count() as i64;
+									if !thorough && ![-1, 0, 1, c, a.len() as i64 + 1].contains(n2) {
+										continue;
+									}
+									if !thorough && k >= 4 && (n1 + n2) % 2 != 0 {
+										continue;
+									}
+									let mut args: Vec<String> = vec!["1".to_owned(); k];
+									args[i] = lit(a);
+									args[j] = n1.to_string();
+									args[l] = n2.to_string();
+									codes.push(call(&args));
+								}
+							}
+						}
+					}
+				}
+			}
+		}
+		for chunk in codes.chunks(4000) {
+			let case = json!({"k":"batch","codes":chunk,"timeout_ms":180000});
+			let imp = pool.ask(&case);
+			*cx.fam.entry("std-pairs".to_owned()).or_default() += 1;
+			pair_calls += chunk.len();
+			let whole = imp["outcome"].as_str().unwrap_or("?") == "ok";
+			if whole {
+				pair_errs += imp["errs"].as_u64().unwrap_or(0) as usize;
+				let bad: Vec<Value> = imp["bad"].as_array().cloned().unwrap_or_default();
+				pair_bad += bad.len();
+				for b in &bad {
+					let i = b["i"].as_u64().unwrap_or(0) as usize;
+					let mut one = b.clone();
+					one["depth"] = b["depth_after"].clone();
+					one["canary"] = imp["canary"].clone();
+					let code = chunk[i].clone();
+					let size = code.len();
+					let tag = one["outcome"].as_str().unwrap_or("?").to_owned();
+					*cx.hist.entry(format!("pairs:{tag}")).or_default() += 1;
+					w.case(json!({"op":"total.observe","family":"std-pairs","case":{"k":"src","code":code},"fn":name,"impl":one,"size":size}), one);
+				}
+				let mut summary = imp.clone();
+				summary["bad"] = json!(bad.len());
+				w.case(json!({"op":"total.observe","family":"std-pairs","fn":name,"batch":chunk.len(),"_first":chunk[0],"impl":summary,"size":chunk.len(),"trivial":false}), summary);
+			} else {
+				// the worker died or hung somewhere in the batch: find the call(s) one by one
+				for code in chunk {
+					let size = code.len();
+					cx.emit(&mut w, &mut pool, "std-pairs", json!({"k":"src","code":code,"timeout_ms":10000}), json!({"fn":name}), None, size);
+				}
+			}
+		}
+	}
+
 	// E. recursion depth swept across the frame limit
 	let limits: &[usize] = if thorough { &[1, 2, 5, 20, 100, 200, 512, 2000] } else { &[2, 5, 20, 200, 512] };
 	for &limit in limits {
@@ -1123,8 +1294,9 @@ fn run_workers(opts: &Opts) {
 	let spawned = pool.spawned;
 	w.finish(
 		json!({"engine":"c04w","cases":n,
-			"rule":"worker subprocesses (8 MiB evaluation thread, overflow-checked build): outcome must be a value or a Jsonnet error (never panic/abort/signal), frame counter back at 0 and a canary program evaluates correctly on the same thread after every case; recursion sweeps: ok* then stack-overflow errors with the first failure in [limit/8, limit]",
-			"families": cx.fam, "outcomes": cx.hist, "workers_spawned": spawned, "std_functions": fnames.len(), "arg_pool": argpool.len()}),
+			"rule":"worker subprocesses (8 MiB evaluation thread, overflow-checked build): outcome must be a value or a Jsonnet error (never panic/abort/signal), frame counter back at 0 and a canary program evaluates correctly on the same thread after every case; recursion sweeps: ok* then stack-overflow errors with the first failure in [limit/8, limit]; std-pairs: every std function of >= 2 parameters x all ordered pairs of a 13-string dense pool (empty, ASCII, 2/3/4-byte, combining, NUL, long) in every pair of positions, and every string x the integers around its length in chars and in bytes, batched per function",
+			"families": cx.fam, "outcomes": cx.hist, "workers_spawned": spawned, "std_functions": fnames.len(), "arg_pool": argpool.len(),
+			"pair_pool": 13, "pair_calls": pair_calls, "pair_calls_err": pair_errs, "pair_calls_failed": pair_bad}),
 		&opts.out,
 	);
 }
